@@ -437,8 +437,8 @@ func (fr *Frame) enterLoop(li *loopInfo, b *ssa.BasicBlock, ins []edge, cur *Sta
 		}
 	}
 	// ghost variables updated by on-call hooks inside the body: havoc all ghosts assigned by any hook (conservative)
-	if fr.isRoot || true {
-		for _, g := range vc.ghostAssigned() {
+	{
+		for _, g := range fr.ghostAssignedIn(blocks) {
 			if _, ok := st.ghost[g]; ok {
 				st.ghost[g] = vc.freshVal("g_"+g, vc.ghostTypes[g]).Ts
 			}
@@ -595,6 +595,74 @@ func (vc *VC) contractError(c *Clause, err error) {
 	}
 	vc.Dropped = append(vc.Dropped, msg)
 	vc.ContractErrors = append(vc.ContractErrors, msg)
+}
+
+// ghostAssignedIn: ghost variables updated by `on call` hooks that match a call inside the given blocks
+// (transitively through inlinable module callees, conservatively by callee name).
+func (fr *Frame) ghostAssignedIn(blocks []*ssa.BasicBlock) []string {
+	vc := fr.vc
+	if vc.RootFC == nil {
+		return nil
+	}
+	names := map[string]bool{}
+	seenFn := map[*ssa.Function]bool{}
+	var scan func(bs []*ssa.BasicBlock, depth int)
+	scan = func(bs []*ssa.BasicBlock, depth int) {
+		for _, b := range bs {
+			for _, ins := range b.Instrs {
+				var c *ssa.CallCommon
+				switch in := ins.(type) {
+				case *ssa.Call:
+					c = &in.Call
+				case *ssa.Defer:
+					c = &in.Call
+				case *ssa.Go:
+					c = &in.Call
+				}
+				if c == nil {
+					continue
+				}
+				callee := c.StaticCallee()
+				names[fr.callName(c, callee)+"\x00"+opConst(c)] = true
+				if callee == nil {
+					if mc, ok := c.Value.(*ssa.MakeClosure); ok {
+						callee = mc.Fn.(*ssa.Function)
+					}
+				}
+				if callee != nil && callee.Blocks != nil && vc.E.fnInModule(callee) && !seenFn[callee] && depth < 5 {
+					seenFn[callee] = true
+					scan(callee.Blocks, depth+1)
+				}
+			}
+		}
+	}
+	scan(blocks, 0)
+	seen := map[string]bool{}
+	var out []string
+	for _, cl := range vc.RootFC.Clauses {
+		if cl.Kind != "oncall" || len(cl.Then) == 0 {
+			continue
+		}
+		hit := false
+		for nm := range names {
+			k := strings.IndexByte(nm, 0)
+			if nameMatches(cl.Callee, nm[:k]) && (cl.Op == "" || cl.Op == nm[k+1:]) {
+				hit = true
+				break
+			}
+		}
+		if !hit {
+			continue
+		}
+		for _, u := range cl.Then {
+			if !seen[u.Name] {
+				seen[u.Name] = true
+				out = append(out, u.Name)
+			}
+		}
+	}
+	sort.Strings(out)
+	return out
 }
 
 func (vc *VC) ghostAssigned() []string {
